@@ -62,7 +62,8 @@ var Texts = map[string]string{
 	"bb-r2": `module bb { namespace "urn:bb"; prefix bb; revision 2021-01-01; grouping g { leaf new { type string; } } typedef t { type int32; } container bc { leaf only-r2 { type string; } leaf both { type int8; } } }`,
 	"ib": `module ib { namespace "urn:ib"; prefix ib; import bb { prefix bb; } container c { uses bb:g; } leaf l { type bb:t; } typedef tl { type bb:t; } leaf k { type tl; }
   leaf u { type union { type bb:t; type boolean; } } typedef tu { type union { type tl; type bb:t { pattern "p.*"; } } } leaf ku { type tu; }
-  augment "/bb:bc" { leaf from-ib { type string; } } }`,
+  augment "/bb:bc" { leaf from-ib { type string; } }
+  grouping ig { leaf gl { type bb:t; } leaf gk { type tl; } uses bb:g; } container cg { uses ig; } }`,
 	// two revisions of an importer, each naming its own revision of bb under the SAME prefix: what p:t means is a matter of
 	// the importing revision, whatever the order in which the library's maps hand the modules out
 	"ab-r1": `module ab { namespace "urn:ab"; prefix ab; import bb { prefix p; revision-date 2020-01-01; } revision 2020-02-02;
@@ -528,7 +529,7 @@ func exec(kind byte, body []byte) *core.Verdict {
 
 // Histories lets another property's check run the histories of the second catalogue that load one of the
 // given texts: what the property promises must hold however the set was arrived at.
-var first = map[string]bool{"i1": true, "t2": true, "t2b": true, "t2c": true, "a3": true, "m4": true, "s4": true, "bb-r1": true, "bb-r2": true, "ib": true, "e5": true}
+var first = map[string]bool{"ab-r1": true, "i1": true, "t2": true, "t2b": true, "t2c": true, "a3": true, "m4": true, "s4": true, "bb-r1": true, "bb-r2": true, "ib": true, "e5": true}
 
 var third = map[string]bool{"lo": true, "lo1": true, "lo2": true, "idm": true, "idb": true, "fm1": true, "fm2": true, "fs": true, "au": true, "sr1": true, "sr2": true, "ibf": true}
 
@@ -589,7 +590,7 @@ func check(r *core.Run) {
 
 // ---- direction B: long random histories judged step by step by SessionTrace.tla ----------------
 
-var goodIDs = []string{"t2c", "ib", "bb-r1", "bb-r2", "e5", "i1", "t2", "a3", "m4", "s4", "t2b",
+var goodIDs = []string{"ab-r1", "t2c", "ib", "bb-r1", "bb-r2", "e5", "i1", "t2", "a3", "m4", "s4", "t2b",
 	"fd", "e6", "tgt", "tgt2", "dv", "dvok", "rv", "lnk", "bg",
 	"idm", "idb", "fm1", "fm2", "fs", "au", "sr1", "sr2", "lo", "lo1", "lo2"}
 
@@ -624,7 +625,7 @@ func genSession(body []byte) *core.Verdict {
 	rng.Shuffle(len(pool), func(i, j int) { pool[i], pool[j] = pool[j], pool[i] })
 	pool = pool[:4+rng.Intn(5)]
 	// texts that belong together travel together
-	for _, grp := range [][]string{{"a3", "t2", "i1"}, {"ib", "bb-r1", "bb-r2"}, {"m4", "s4"}, {"dv", "tgt"}, {"dvok", "tgt"}, {"idm", "idb"}, {"au", "sr1", "sr2"}, {"fm1", "fs", "fm2"}, {"lo", "lo1", "lo2"}} {
+	for _, grp := range [][]string{{"a3", "t2", "i1"}, {"ib", "bb-r1", "bb-r2"}, {"ab-r1", "bb-r2", "bb-r1"}, {"m4", "s4"}, {"dv", "tgt"}, {"dvok", "tgt"}, {"idm", "idb"}, {"au", "sr1", "sr2"}, {"fm1", "fs", "fm2"}, {"lo", "lo1", "lo2"}} {
 		for _, p := range pool {
 			if p == grp[0] {
 				pool = append(pool, grp[1:]...)
